@@ -19,7 +19,9 @@ pub fn run(seed: u64, tier: &str, out: &mut Out) {
     let mut rng = Rng::new(seed);
     let n = if tier == "thorough" { 200_000 } else { 6_000 };
     let t0 = 1_000_000_000_000u64;
-    for _ in 0..n {
+    for case_no in 0..n {
+        // a panic anywhere in a case (a draw during the history, the final draw, a getter) is a failure of that case
+        let r = std::panic::catch_unwind(std::panic::AssertUnwindSafe(|| {
         vh::set_auto_advance_ns(0); vh::set_now_ns(t0);
         let key = *rng.pick(&KEYS);
         let len: Option<u64> = match rng.below(8) { 0 => None, 1 => Some(0), 2 => Some(u64::MAX), 3 => Some(1), _ => Some(rng.range(1, 5000)) };
@@ -50,29 +52,36 @@ pub fn run(seed: u64, tier: &str, out: &mut Out) {
         let finished = rng.chance(1, 4);
         // let the refresh limiter recover, so that the last draw is not skipped
         now += 1_000_000_000; vh::set_now_ns(now);
+        // (a draw or a getter that panics is reported as a failure of this case, not of the harness)
+        let verdict = { let pbc = pb.clone(); let r = std::panic::catch_unwind(std::panic::AssertUnwindSafe(|| { let pb = &pbc;
         if finished { pb.abandon(); } else { pb.tick(); ticks = ticks.map(|t| t + 1); }
-        let got = last_line(&rec);
-        let (pos, lenv) = (pb.position(), pb.length().unwrap_or(pb.position()));
-        let fraction = { let f: f32 = match (pos, pb.length()) { (_, None) => 0.0, (_, Some(0)) => 1.0, (0, _) => 0.0, (p, Some(l)) => p as f32 / l as f32 }; f.clamp(0.0, 1.0) };
-        let exp: Option<String> = Some(match key {
-            "pos" => format!("{pos}"), "human_pos" => format!("{}", HumanCount(pos)), "len" => format!("{lenv}"), "human_len" => format!("{}", HumanCount(lenv)),
-            "percent" => format!("{:.0}", fraction * 100f32), "percent_precise" => format!("{:.3}", fraction * 100f32),
-            "bytes" => format!("{}", HumanBytes(pos)), "total_bytes" => format!("{}", HumanBytes(lenv)), "decimal_bytes" => format!("{}", DecimalBytes(pos)), "decimal_total_bytes" => format!("{}", DecimalBytes(lenv)),
-            "binary_bytes" => format!("{}", BinaryBytes(pos)), "binary_total_bytes" => format!("{}", BinaryBytes(lenv)),
-            "elapsed_precise" => format!("{}", FormattedDuration(pb.elapsed())), "elapsed" => format!("{:#}", HumanDuration(pb.elapsed())),
-            "per_sec" => format!("{}/s", HumanFloatCount(pb.per_sec())), "per_sec:3" => format!("{:.3}/s", HumanFloatCount(pb.per_sec())),
-            "bytes_per_sec" => format!("{}/s", HumanBytes(pb.per_sec() as u64)), "decimal_bytes_per_sec" => format!("{}/s", DecimalBytes(pb.per_sec() as u64)), "binary_bytes_per_sec" => format!("{}/s", BinaryBytes(pb.per_sec() as u64)),
-            "eta_precise" => format!("{}", FormattedDuration(pb.eta())), "eta" => format!("{:#}", HumanDuration(pb.eta())),
-            "duration_precise" => format!("{}", FormattedDuration(pb.duration())), "duration" => format!("{:#}", HumanDuration(pb.duration())),
-            "msg" | "wide_msg" => pb.message(), "prefix" => pb.prefix(),
-            "spinner" => if finished { "Z".to_string() } else if let Some(t) = ticks { TICKS[(t % 4) as usize].to_string() } else { String::new() },
-            _ => format!("<{}|{:?}|{}>", pos, pb.length(), finished),
-        });
-        let mut verdict = String::from("ok");
-        let skip = key == "spinner" && !finished && ticks.is_none();
-        if let Some(e) = exp { if !skip && !e.trim_end_matches(' ').is_empty() && got.trim_end_matches(' ') != e.trim_end_matches(' ') { verdict = format!("FAIL key={key} drawn={got:?} expected={e:?}"); } }
+            let got = last_line(&rec);
+            let (pos, lenv) = (pb.position(), pb.length().unwrap_or(pb.position()));
+            let fraction = { let f: f32 = match (pos, pb.length()) { (_, None) => 0.0, (_, Some(0)) => 1.0, (0, _) => 0.0, (p, Some(l)) => p as f32 / l as f32 }; f.clamp(0.0, 1.0) };
+            let exp: Option<String> = Some(match key {
+                "pos" => format!("{pos}"), "human_pos" => format!("{}", HumanCount(pos)), "len" => format!("{lenv}"), "human_len" => format!("{}", HumanCount(lenv)),
+                "percent" => format!("{:.0}", fraction * 100f32), "percent_precise" => format!("{:.3}", fraction * 100f32),
+                "bytes" => format!("{}", HumanBytes(pos)), "total_bytes" => format!("{}", HumanBytes(lenv)), "decimal_bytes" => format!("{}", DecimalBytes(pos)), "decimal_total_bytes" => format!("{}", DecimalBytes(lenv)),
+                "binary_bytes" => format!("{}", BinaryBytes(pos)), "binary_total_bytes" => format!("{}", BinaryBytes(lenv)),
+                "elapsed_precise" => format!("{}", FormattedDuration(pb.elapsed())), "elapsed" => format!("{:#}", HumanDuration(pb.elapsed())),
+                "per_sec" => format!("{}/s", HumanFloatCount(pb.per_sec())), "per_sec:3" => format!("{:.3}/s", HumanFloatCount(pb.per_sec())),
+                "bytes_per_sec" => format!("{}/s", HumanBytes(pb.per_sec() as u64)), "decimal_bytes_per_sec" => format!("{}/s", DecimalBytes(pb.per_sec() as u64)), "binary_bytes_per_sec" => format!("{}/s", BinaryBytes(pb.per_sec() as u64)),
+                "eta_precise" => format!("{}", FormattedDuration(pb.eta())), "eta" => format!("{:#}", HumanDuration(pb.eta())),
+                "duration_precise" => format!("{}", FormattedDuration(pb.duration())), "duration" => format!("{:#}", HumanDuration(pb.duration())),
+                "msg" | "wide_msg" => pb.message(), "prefix" => pb.prefix(),
+                "spinner" => if finished { "Z".to_string() } else if let Some(t) = ticks { TICKS[(t % 4) as usize].to_string() } else { String::new() },
+                _ => format!("<{}|{:?}|{}>", pos, pb.length(), finished),
+            });
+            let mut verdict = String::from("ok");
+            let skip = key == "spinner" && !finished && ticks.is_none();
+            if let Some(e) = exp { if !skip && !e.trim_end_matches(' ').is_empty() && got.trim_end_matches(' ') != e.trim_end_matches(' ') { verdict = format!("FAIL key={key} drawn={got:?} expected={e:?}"); } }
+            verdict }));
+            r.unwrap_or_else(|_| format!("FAIL panic while drawing {{{key}}} or reading its getter after hist={}", hist.join(","))) };
+        let mut verdict = verdict;
         if key == "custom" && counter.load(std::sync::atomic::Ordering::SeqCst) == 0 { verdict = "FAIL custom-key-never-called".into(); }
         out.emit(&format!("KEY {key} len={len:?} start={start_pos} finished={finished} hist={}", hist.join(",")), &format!("ORACLE {verdict}"));
+    }));
+        if r.is_err() { out.emit(&format!("NOMODEL PANIC C11 case {case_no}"), &format!(" ORACLE FAIL panic while drawing or reading getters in C11 case {case_no} (same seed and tier reproduce it)")); }
     }
 }
 
@@ -99,11 +108,14 @@ pub fn run_trackers(seed: u64, tier: &str, out: &mut Out) {
         let visible = rng.chance(2, 3);
         let pb = ProgressBar::with_draw_target(Some(rng.range(1, 50)), if visible { ProgressDrawTarget::term_like(Box::new(rec.clone())) } else { ProgressDrawTarget::hidden() });
         let log = std::sync::Arc::new(std::sync::Mutex::new(Vec::new()));
-        pb.set_style(ProgressStyle::with_template("{pos} {k}").unwrap().with_key("k", Spy(log.clone())));
+        // a third of the bars do not show the key (yet): a tracker is ticked and reset together with the bar whether or not the
+        // template mentions it, and shows up-to-date values when a later template does (`restyle` below)
+        let shown = !rng.chance(1, 3);
+        pb.set_style(ProgressStyle::with_template(if shown { "{pos} {k}" } else { "{pos}" }).unwrap().with_key("k", Spy(log.clone())));
         log.lock().unwrap().clear();
         let mut now = t0; let mut hist: Vec<String> = Vec::new(); let mut verdict = String::from("ok");
         for _ in 0..rng.range(1, 14) {
-            let op = rng.below(13);
+            let op = rng.below(14);
             let name = match op {
                 0 => { pb.tick(); "tick" } 1 => { pb.set_message("m"); "set_message" } 2 => { pb.set_prefix("p"); "set_prefix" }
                 3 => { pb.set_length(rng.range(1, 60)); "set_length" } 4 => { pb.inc_length(1); "inc_length" } 5 => { pb.unset_length(); "unset_length" }
@@ -111,7 +123,8 @@ pub fn run_trackers(seed: u64, tier: &str, out: &mut Out) {
                 8 => { pb.reset(); "reset" } 9 => { if rng.chance(1, 2) { pb.reset_eta() } else { pb.reset_elapsed() }; "reset_eta_or_elapsed" }
                 10 => { match rng.below(3) { 0 => pb.finish(), 1 => pb.abandon(), _ => pb.finish_with_message("done") }; "finish" }
                 11 => { let d = *rng.pick(&[1u64, 1_000_000, 50_000_000, 2_000_000_000]); now += d; vh::set_now_ns(now); "adv" }
-                _ => { pb.update(|s| s.set_pos(3)); "update" }
+                12 => { pb.update(|s| s.set_pos(3)); "update" }
+                _ => { pb.set_style(pb.style().template("{k} {pos}").unwrap()); "restyle" }
             };
             hist.push(name.to_string());
             let evs: Vec<String> = std::mem::take(&mut *log.lock().unwrap());
@@ -127,7 +140,7 @@ pub fn run_trackers(seed: u64, tier: &str, out: &mut Out) {
             if verdict == "ok" { for e in evs.iter().filter(|e| e.starts_with("write")) { if *e != format!("write {pos} {fin}") { verdict = format!("FAIL tracker-write-state {name}: got {e:?}, bar has pos={pos} finished={fin}"); } } }
         }
         std::mem::forget(pb);
-        out.emit(&format!("NOMODEL TRACKERS visible={visible} {}", hist.join(",")), &format!(" ORACLE {verdict}"));
+        out.emit(&format!("NOMODEL TRACKERS visible={visible} shown={shown} {}", hist.join(",")), &format!(" ORACLE {verdict}"));
     }
 }
 
@@ -144,7 +157,9 @@ pub fn run_render(seed: u64, tier: &str, out: &mut Out) {
         "binary_bytes", "binary_total_bytes", "elapsed_precise", "elapsed", "per_sec", "bytes_per_sec", "decimal_bytes_per_sec", "binary_bytes_per_sec",
         "eta_precise", "eta", "duration_precise", "duration", "msg", "prefix", "spinner", "bar", "nosuchkey"];
     let cps = |s: &str| if s.is_empty() { "-".to_string() } else { s.chars().map(|c| (c as u32).to_string()).collect::<Vec<_>>().join(",") };
-    for _ in 0..n {
+    for case_no in 0..n {
+        // a panic anywhere in a case (a draw during the history, the final draw, a getter) is a failure of that case
+        let r = std::panic::catch_unwind(std::panic::AssertUnwindSafe(|| {
         vh::set_auto_advance_ns(0); vh::set_now_ns(t0);
         let width = *rng.pick(&[30u16, 60, 100, 200]);
         let len: Option<u64> = match rng.below(8) { 0 => None, 1 => Some(0), 2 => Some(u64::MAX), 3 => Some(1), _ => Some(rng.range(1, 5000)) };
@@ -167,7 +182,7 @@ pub fn run_render(seed: u64, tier: &str, out: &mut Out) {
         let (pchars, clusters, cwid): (&str, &str, usize) = *rng.pick(&[("#>-", "35;62;45", 1), ("=>.", "61;62;46", 1), ("█▉▊▋▌▍▎▏  ", "9608;9609;9610;9611;9612;9613;9614;9615;32;32", 1), ("＃＞－", "65283;65310;65293", 2), ("ab", "97;98", 1)]);
         let rec = Recorder::new(60000, width, false);
         let pb = ProgressBar::with_draw_target(len, ProgressDrawTarget::term_like(Box::new(rec.clone()))).with_position(start_pos);
-        let style = match ProgressStyle::with_template(&tpl) { Ok(s) => s, Err(_) => continue };
+        let style = match ProgressStyle::with_template(&tpl) { Ok(s) => s, Err(_) => return };
         pb.set_style(style.tick_strings(&TICKS).progress_chars(pchars));
         let mut ticks: u64 = 0; let mut now = t0; let mut hist = Vec::new();
         for _ in 0..rng.below(8) {
@@ -192,11 +207,18 @@ pub fn run_render(seed: u64, tier: &str, out: &mut Out) {
         let lines: Vec<String> = if groups.len() == 1 && groups[0].is_empty() { vec![] } else { groups.iter().map(|g| g.first().cloned().unwrap_or_default()).collect() };
         let shown = lines.iter().map(|l| cps(l).replace(',', ".")).collect::<Vec<_>>().join("|");
         let tick_str = if finished { "Z" } else { TICKS[(ticks % 4) as usize] };
-        let case = format!("RENDERK {width} 8 tpl={} pos={} len={} elapsed={} eta={} duration={} persec={} msg={} prefix={} tick={} chars={clusters} cwid={cwid} cw=233:1,26085:2,65283:2,65310:2,65293:2",
-            cps(&tpl), pb.position(), pb.length().map_or("none".to_string(), |l| l.to_string()), pb.elapsed().as_nanos(), pb.eta().as_nanos(), pb.duration().as_nanos(),
-            pb.per_sec().to_bits(), cps(&pb.message()), cps(&pb.prefix()), cps(tick_str));
+        // the getters read at the same instant (a getter that panics is a finding like a draw that panics)
+        let pb3 = pb.clone();
+        let vals = std::panic::catch_unwind(std::panic::AssertUnwindSafe(move || (pb3.elapsed().as_nanos(), pb3.eta().as_nanos(), pb3.duration().as_nanos(), pb3.per_sec().to_bits())));
+        let getter_panic = vals.is_err();
+        let (el, eta, dur, ps) = vals.unwrap_or((0, 0, 0, 0));
+        let case = format!("RENDERK {width} 8 tpl={} pos={} len={} elapsed={el} eta={eta} duration={dur} persec={ps} msg={} prefix={} tick={} chars={clusters} cwid={cwid} cw=233:1,26085:2,65283:2,65310:2,65293:2",
+            cps(&tpl), pb.position(), pb.length().map_or("none".to_string(), |l| l.to_string()), cps(&pb.message()), cps(&pb.prefix()), cps(tick_str));
         std::mem::forget(pb);
-        if panicked { out.emit(&case, &format!("panic ORACLE FAIL panic while drawing tpl={tpl:?} hist={}", hist.join(","))); }
+        if getter_panic { out.emit(&case, &format!("panic ORACLE FAIL panic in elapsed() / eta() / duration() / per_sec() after hist={}", hist.join(","))); }
+        else if panicked { out.emit(&case, &format!("panic ORACLE FAIL panic while drawing tpl={tpl:?} hist={}", hist.join(","))); }
         else { out.emit(&case, &format!("n={} {shown} ORACLE ok", lines.len())); }
+    }));
+        if r.is_err() { out.emit(&format!("NOMODEL PANIC C11R case {case_no}"), &format!(" ORACLE FAIL panic while drawing or reading getters in C11R case {case_no} (same seed and tier reproduce it)")); }
     }
 }
